@@ -21,6 +21,19 @@ CHECKS = {
     ),
 }
 
+_GEN_NOTE = ("Trusted: TLC; RDKit for token chemistry (atoms, bonds, attachment atoms of descriptors written as dummy atoms, masses) and for reading "
+             "the generated molecule; the recording/scripted numpy Generator subclass; the tap on Distribution.draw_mw. Bounds: exhaustive choice "
+             "trees are capped per instance (quick 4 000 nodes, thorough 40 000); larger instances are validated on recorded random streams only.")
+_GEN_TECH = "TLA+ spec (Generate.tla) model-checked with TLC; implementation choice trees and random-stream traces validated against it by TLC (trace-tree validation)"
+for _p, _t in {
+    "C04": "Design: TLC checks on GenerateMC (all choice sequences x target grid per instance) that every bond joins two unused, mutually compatible descriptors with their order (invariants IBonds, action property AttachSound). Conformance: the implementation's complete choice tree of ~70 bounded instances (all archetypes, negative instances whose transition lists point at incompatible descriptors) and recorded random streams of long instances are validated node by node against the spec; at every return the generated molecule must equal, atom by atom and bond by bond, the molecule the spec's residue tree denotes.",
+    "C05": "Design: TLC checks TreeInv / Connected / MassInv on every reachable state of GenerateMC. Conformance: every returned molecule of every explored schedule must equal the spec's assembly of whole token copies (element, charge, isotope, aromaticity, hydrogen count per atom, internal bonds, one bond per attachment), be sanitisable, and have mass = sum of residue masses; chemistry-rich token families (aromatic, charged, bracket, isotopic, polycyclic).",
+    "C06": "Design: TLC checks on GenerateMC WellPosed (no error reachable) for the instances the analysis calls well-posed, Closed / ElementOrder / NeighbourBonds / TerminalsRespected / EndGroupsAreLeaves in every done state, and the liveness property Termination under weak fairness without state constraint. Conformance: on every explored schedule the implementation returns exactly when the spec is done and raises exactly when the spec reaches error; the same done-state predicates are evaluated on the state that follows the implementation.",
+    "C07": "Design: TLC checks StopRule and GrowOnlyBelowTarget on GenerateMC over a target grid bracketing every cumulative mass (+-1 mDa, equal, negative, zero). Conformance: targets forced through the library's own draw (zero-width gaussian) incl. exact-equality floats, negative and sub-unit targets, second blocks and end-group starts; the spec keeps the branch of the stop comparison that was not taken, so a divergence of the stop rule is told apart from a divergence of a selection law.",
+    "C08": "Design: LawNormalised on every decision state. Conformance: at EVERY call of rng.choice on every explored path the candidate list and the probability vector (as exact fractions) must equal the spec's candidates and Law / TransLaw, options of probability zero are never taken, for all eight decision kinds x {forced, uniform, zero-next-to-nonzero, unequal} (census enforced as a vacuity guard); complete trees additionally have recorded probability mass exactly 1, so the exact distribution over molecules equals the spec's.",
+}.items():
+    CHECKS[_p] = dict(category="model_checking", text=_t, design_ref="DESIGN.md 4/" + _p, note=_GEN_NOTE, technique=_GEN_TECH)
+
 PENDING_REASON = "check not built yet in this round (design in DESIGN.md); no claim is made"
 
 
